@@ -9,9 +9,17 @@
 #define M 4
 #endif
 #define VF_INPUTS(X) X(unsigned char, b, [M]) X(unsigned, off, ) X(unsigned, lit, ) X(double, strtod_val, ) X(unsigned char, dp, )
+#define VF_MAXSZ (M + 2)
 #include "vf.h"
 #include "vf_libc.h"
+/* the default allocator of the library TU is the counting allocator, so that an implementation that allocates is in the ledger */
+#define malloc vf_malloc
+#define free vf_free
+#define realloc vf_realloc
 #include "cJSON.c"
+#undef malloc
+#undef free
+#undef realloc
 
 static int numchar(unsigned char c) { return (c >= '0' && c <= '9') || c == '+' || c == '-' || c == 'e' || c == 'E' || c == '.'; }
 static int dig(unsigned char c) { return c >= '0' && c <= '9'; }
@@ -49,6 +57,8 @@ int main(VF_MAIN_ARGS)
 
     VF_AP(1, memcmp(content, IN.b, M) == 0, "C01 input not written");
     VF_AP(1, vf_live == 0, "C01 parse_number leaves no allocation behind");
+    VF_AP(3, vf_live == 0, "C03 a rejected (or accepted) number leaves no allocation behind");
+    VF_AP(7, vf_live == 0, "C07 parse_number releases whatever it allocates");
     VF_AP(10, buf.offset <= buf.length, "C10 offset stays inside the buffer");
     if (ok) {
         VF_AP(10, buf.offset > off, "C10 success consumes at least one byte");
